@@ -13,7 +13,7 @@
 From Coq Require Import List ZArith NArith Bool.
 Import ListNotations.
 From DD Require Import Base.PyStr Base.Value Lfu.LfuModel Diff.DiffModel Hash.HashModel Hash.HashProofsC06 Hash.HashProofsMemo
-  DiffIO.DiffIOModel DiffIO.MemoModel DiffIO.MemoProofs.
+  DiffIO.DiffIOModel DiffIO.MemoModel DiffIO.MemoProofs DiffIO.DiffIOProofsExt.
 
 (* Full strength (every run) is false of the faithful model: when the same key is computed
    with two values the cached run returns something else.  deepdiff does exactly this: the
@@ -55,6 +55,20 @@ Theorem C17_cache_settings_agree_partial :
   fst (fst (run_cached sched p (mkM (empty cap) 0))) = fst (fst (run_cached sched' p (mkM (empty cap') 0))).
 Proof. exact cache_settings_agree. Qed.
 Print Assumptions C17_cache_settings_agree_partial.
+
+(* ... on the RESULT of the ignore-order diff (DiffIO/DiffIOModel.v): if the pairing of every
+   level is the value of a program of memoised calls, evaluating those programs with the cache
+   (any capacity, any schedule) gives the very result of the cache-less run *)
+Theorem C17_result_cache_independent_partial :
+  forall (H : pystr -> pystr) udiff skip excl c rep (V : Type) (spec : key -> V)
+         (pp : path -> prog V) (dec : V -> list (nat * nat)),
+  (forall p, consistent spec (pp p)) ->
+  forall (cap : path -> nat) (sched : path -> nat -> bool) t1 t2,
+  run_diff_io H udiff skip excl c rep
+    (fun p => dec (fst (fst (run_cached (sched p) (pp p) (mkM (empty (cap p)) 0))))) t1 t2 =
+  run_diff_io H udiff skip excl c rep (fun p => dec (run_pure (pp p))) t1 t2.
+Proof. exact result_cache_independent. Qed.
+Print Assumptions C17_result_cache_independent_partial.
 
 (* cache_size = 0 (DummyLFU: the cache is never enabled) is the cache-less run, for every run *)
 Theorem C17_cache_off_is_pure :
